@@ -403,6 +403,16 @@ CORPUS_TEXT = {"R1": P11, "P1": P1, "P3": P3, "P4": P4, "P5": P5, "P6": P6, "P7"
 _cache = {}
 
 
+A1_BODY = """
+integer :: i
+real :: x(3)
+do i = 1, 3
+x(i) = i * 2.0
+end do
+print *, 'sum', sum(x)
+"""
+
+
 def corpus():
     """name -> statement list"""
     if not _cache:
@@ -410,6 +420,10 @@ def corpus():
             prog = from_text(v)
             assert balanced(prog), k
             _cache[k] = prog
+        # A1: a main program WITHOUT a PROGRAM statement (virtual opener, rendered as nothing)
+        a1 = [S("", "program_anon", "open")] + from_text(A1_BODY) + [S("end", "end_program", "close")]
+        assert balanced(a1)
+        _cache["A1"] = a1
     return dict(_cache)
 
 
